@@ -4,5 +4,6 @@ INVARIANT LeftmostError
 INVARIANT CmpIsBool
 INVARIANT ConcatIsText
 INVARIANT CoercionConsistent
+PROPERTY OperandsKept
 POSTCONDITION Emit
 CHECK_DEADLOCK FALSE
